@@ -554,11 +554,13 @@ def write_evidence(rep, code):
             "demoted": rep.demoted,
             "known_findings": rep.known,
             "violations": rep.violations,
-            "evaluations": rep.crosscheck.get("samples", 0),
-            "distinct_nontrivial": rep.crosscheck.get("agree", 0),
+            "evaluations": rep.crosscheck.get("samples", 0) + sum(b.get("cases", 0) for b in rep.bounded),
+            "distinct_nontrivial": rep.crosscheck.get("agree", 0) + sum(b.get("cases", 0) for b in rep.bounded),
             "rule": "evaluations = concrete executions of the real functions under run-time contract checking "
-                    "(cross-check / bounded stand-in); distinct_nontrivial = those that satisfied the precondition and "
-                    "were executed; the deciding step is `obligations == discharged`",
+                    "(cross-check inputs + operations / searches executed by the bounded stand-ins, generated from the seeded PRNG "
+                    "over boundary grids); distinct_nontrivial = those that satisfied the precondition and were executed "
+                    "(bounded-stand-in cases are distinct by construction of the grid or drawn from a seeded PRNG; duplicates are "
+                    "not filtered); where obligations exist the deciding step is `obligations == discharged`",
             "exhaustive": False,
         },
         "assumptions": pinfo.get("assumptions", []) + ["trusted: " + t for t in sorted(rep.trusted)],
